@@ -150,10 +150,31 @@ fn build_world(spec: &SchedSpec) -> Result<World, String> {
         }
         let st = RangeStatement::init(shared.clone(), cs, proms, seed).map_err(crate::runner::skip_err)?;
         let w = RangeWitness::init(os).map_err(crate::runner::skip_err)?;
-        let proof = crate::runner::setup(
-            guarded(|| RangeProof::prove_with_rng(&mut Transcript::new(b"c18"), &st, &w, &mut RngSpec::ChaCha(pc.bulk).make())),
-            "the prover refused or panicked on a valid witness (C01's subject)",
-        )?;
+        // All cases share clones of ONE parameter object and are proved one after the other. If the prover fails here, the same
+        // call is repeated over a parameter object constructed afresh: failing there too is completeness (C01's subject, case
+        // skipped); succeeding there means the outcome depended on what the shared object went through before - this property.
+        let first_try = guarded(|| RangeProof::prove_with_rng(&mut Transcript::new(b"c18"), &st, &w, &mut RngSpec::ChaCha(pc.bulk).make()));
+        let proof = match first_try {
+            Ok(Ok(p)) => p,
+            failed => {
+                let fresh = RangeParameters::init(bits, cap, ristretto::create_pedersen_gens_with_extension_degree(ext_of(spec.ext))).map_err(crate::runner::skip_err)?;
+                let st_fresh = RangeStatement::init(fresh, st.commitments.clone(), st.minimum_value_promises.clone(), seed).map_err(crate::runner::skip_err)?;
+                let again = guarded(|| RangeProof::prove_with_rng(&mut Transcript::new(b"c18"), &st_fresh, &w, &mut RngSpec::ChaCha(pc.bulk).make()));
+                if let Ok(Ok(_)) = again {
+                    return Err(format!(
+                        "proving {} commitments fails on a parameter object of capacity {} that earlier calls have used ({}) but succeeds on one constructed afresh: a call observes state left behind by another",
+                        m,
+                        cap,
+                        match failed {
+                            Ok(Err(e)) => format!("{:?}", e),
+                            Err(p) => p,
+                            Ok(Ok(_)) => unreachable!(),
+                        }
+                    ));
+                }
+                return Err(format!("{} the prover refused or panicked on a valid witness, also over fresh parameters (C01's subject)", crate::runner::SKIP));
+            },
+        };
         cases.push(Built { foreign, st, w, proof });
     }
     Ok(World { bits, ext: spec.ext, cases })
